@@ -1589,6 +1589,14 @@ sf_seek	(SNDFILE *sndfile, sf_count_t offset, int whence)
 
 		retval = psf->seek (psf, new_mode, seek_from_start) ;
 
+		if (retval < 0)
+		{	/* Leave the positions alone and make the next read/write re-seek. */
+			if (psf->error == 0)
+				psf->error = SFE_BAD_SEEK ;
+			psf->last_op = 0 ;
+			return PSF_SEEK_ERROR ;
+			} ;
+
 		switch (new_mode)
 		{	case SFM_READ :
 					psf->read_current = retval ;
